@@ -100,4 +100,11 @@ LawsDiscriminate ==
 Emit ==
   (EmitCases /\ Complete /\ Realisable /\ nsw >= MaxSwitch) =>
      PrintT("CASE " \o ToJson([ n |-> m, succs |-> succs, recover |-> rec ]))
+
+\* focused emission (simulation configs): only the complete graphs on which step 4 of the dominator computation has
+\* a chain of deferred vertices to resolve (DomLT!LTDeferralChains)
+EmitChains ==
+  (EmitCases /\ Complete /\ Realisable) =>
+     LET GG == [ n |-> m, succs |-> succs, recover |-> rec ] IN
+     (LTDeferralChains(GG) # {}) => PrintT("CASE " \o ToJson([ n |-> m, succs |-> succs, recover |-> rec ]))
 =============================================================================
